@@ -251,7 +251,7 @@ def finding_key(case, label, values, where):
             return "C08|error reply to an application contact-sync request is swallowed by the protocol layer"
         for i in range(3):
             k = values.get("kind%d" % i)
-            if k is not None and kinds and kinds[k] == "contact-sync" and label.startswith("r%d:" % i):
+            if k is not None and kinds and k < len(kinds) and kinds[k] == "contact-sync" and label.startswith("r%d:" % i):
                 return "C08|error reply to an application contact-sync request is swallowed by the protocol layer"
     return None
 
@@ -288,7 +288,7 @@ def cases(tier):
     else:
         for a in ("lastseen", "contact-sync", "media-upload", "group-create"):
             cs.append(dict(name="history[3req,3del,first=%s]" % a, fn=_first_kind(a), args=(3, 3, ("lastseen", "group-info", "picture-get", "contact-sync")), max_paths=400000, timeout_s=3400, weight=500))
-        cs.append(dict(name="history[2req,3del]", fn=h_history, args=(2, 3, ("lastseen", "group-info", "contact-sync", "picture-get", "media-upload", "group-create")), max_paths=50000, timeout_s=1200, weight=100))
+        cs.append(dict(name="history[2req,3del,6kinds]", fn=h_history, args=(2, 3, ("lastseen", "group-info", "contact-sync", "picture-get", "media-upload", "group-create")), max_paths=50000, timeout_s=1200, weight=100))
     cs.append(dict(name="internal[key-upload]", fn=h_internal_keyupload))
     cs.append(dict(name="internal[key-fetch]", fn=h_internal_keyfetch))
     return cs
